@@ -44,6 +44,8 @@ class Gen:
         # pick a small set of types, biased to types sharing a shard
         grp = r.choice(COLL)
         self.types = list(dict.fromkeys(grp[:2] + [r.randrange(NTYPES) for _ in range(r.randint(0, 2))]))
+        if focus in ("C09", "C13", "C20") or r.random() < 0.3:
+            self.types.append(r.randrange(30, NTYPES))    # a TypeNamer type whose name depends on the value
         self.nbodies = r.randint(2, 6)
 
     def ty(self):
@@ -121,10 +123,13 @@ class Gen:
             opts.append("store1")
             if r.random() < (0.3 if self.focus == "C09" else 0.05):
                 opts.append(r.choice(["store2", "store1"]))
+        pt = any(o.startswith("store") for o in opts) and r.random() < (0.5 if self.focus in ("C13", "C20") else 0.15)
+        if pt:
+            opts.append("ptimeout")
         r.shuffle(opts)
         lines.append("opts " + " ".join(opts))
         if any(o.startswith("store") for o in opts) and r.random() < (0.8 if self.focus == "C13" else 0.3):
-            lines.append("faults " + " ".join(str(1 if r.random() < 0.35 else 0) for _ in range(r.randint(1, 10))))
+            lines.append("faults " + " ".join(str((2 if pt and r.random() < 0.3 else 1) if r.random() < 0.35 else 0) for _ in range(r.randint(1, 10))))
         for b in range(self.nbodies):
             leaf = b < 2
             acts = [self.body_action(leaf) for _ in range(r.randint(0, 4 if not leaf else 2))]
